@@ -10,225 +10,50 @@
 package main
 
 import (
-	"encoding/hex"
 	"encoding/json"
 	"fmt"
 	"math/rand"
 	"os"
 	"os/exec"
 	"path/filepath"
+	"regexp"
 	"sort"
 	"strings"
-	"sync"
-	"sync/atomic"
 	"syscall"
 	"time"
 
 	"github.com/rogpeppe/go-internal/testscript"
 
+	"verif/checks/c04/batch"
 	"verif/tsh"
 	"verif/vlib"
 )
 
-type scriptSpec struct {
-	File      string `json:"file"`
-	Name      string `json:"name"` // subtest name RunT must use
-	Token     string `json:"token"`
-	SetupFail bool   `json:"setup_fail"`
-	Ending    string `json:"ending"`
-	Marks     []int  `json:"marks"` // defer marks that are registered before the script ends
-	Entries   []string `json:"entries"`
-	Jobs      int    `json:"jobs"`
-}
+type scriptSpec = batch.ScriptSpec
+type batchSpec = batch.BatchSpec
+type scriptResult = batch.ScriptResult
+type batchResult = batch.BatchResult
 
-type batchSpec struct {
-	Scripts   []scriptSpec `json:"scripts"`
-	Parallel  bool         `json:"parallel"`
-	Retention string       `json:"retention"` // "", "testwork", "workdirroot"
-	WorkRoot  string       `json:"workroot"`
-	PidDir    string       `json:"piddir"`
-	Style     int          `json:"style"`
-	Out       string       `json:"out"`
-	Arrivals  int          `json:"arrivals"`
-}
-
-type scriptResult struct {
-	Name     string   `json:"name"`
-	Verdict  string   `json:"verdict"`
-	Tree     []string `json:"tree"`
-	EnvNames []string `json:"env_names"`
-	Problems []string `json:"problems"`
-	Defers   []int    `json:"defers"`
-	Log      string   `json:"log"`
-	EndMono  int64    `json:"end_mono"`
-}
-
-type batchResult struct {
-	Scripts []scriptResult `json:"scripts"`
-	Escapes []string       `json:"panic_escapes"`
-	RendezvousComplete int `json:"rendezvous_complete"`
-}
-
-// ---------- batch process ----------
+// ---------- batch process (recording T back-end) ----------
 
 func runBatch(specPath string) int {
-	b, err := os.ReadFile(specPath)
+	c, err := batch.Load(specPath)
 	if err != nil {
 		fmt.Fprintln(os.Stderr, err)
 		return 2
 	}
-	var spec batchSpec
-	json.Unmarshal(b, &spec)
-	byName := map[string]*scriptSpec{}
-	for i := range spec.Scripts {
-		byName[spec.Scripts[i].Name] = &spec.Scripts[i]
-	}
-	var mu sync.Mutex
-	res := map[string]*scriptResult{}
-	get := func(name string) *scriptResult {
-		mu.Lock()
-		defer mu.Unlock()
-		if res[name] == nil {
-			res[name] = &scriptResult{Name: name}
-		}
-		return res[name]
-	}
-	problem := func(name, p string) {
-		r := get(name)
-		mu.Lock()
-		r.Problems = append(r.Problems, p)
-		mu.Unlock()
-	}
-	var arrived int32
-	var complete int32
-	os.Setenv("VERIF_CANARY", "host-secret")
-	var files []string
-	for _, s := range spec.Scripts {
-		files = append(files, s.File)
-	}
-	nameOf := func(workdir string) string { return strings.TrimPrefix(filepath.Base(workdir), "script-") }
-	p := testscript.Params{
-		Files: files,
-		Setup: func(env *testscript.Env) error {
-			name := nameOf(env.WorkDir)
-			sp := byName[name]
-			env.Defer(func() { r := get(name); mu.Lock(); r.Defers = append(r.Defers, 0); mu.Unlock() })
-			env.Vars = append(env.Vars, "SETUPVAR="+name)
-			if sp != nil && sp.SetupFail {
-				return fmt.Errorf("setup refuses %s", name)
-			}
-			return nil
-		},
-		Cmds: map[string]func(ts *testscript.TestScript, neg bool, args []string){
-			"snaptree": func(ts *testscript.TestScript, neg bool, args []string) {
-				work := ts.Getenv("WORK")
-				var l []string
-				filepath.Walk(work, func(pth string, info os.FileInfo, err error) error {
-					if err == nil && pth != work {
-						rel, _ := filepath.Rel(work, pth)
-						l = append(l, rel)
-					}
-					return nil
-				})
-				sort.Strings(l)
-				r := get(ts.Name())
-				mu.Lock()
-				r.Tree = l
-				mu.Unlock()
-			},
-			"grabenv": func(ts *testscript.TestScript, neg bool, args []string) {
-				var names []string
-				for _, l := range strings.Fields(ts.ReadFile("stdout")) {
-					b, _ := hex.DecodeString(l)
-					n, v, _ := strings.Cut(string(b), "=")
-					names = append(names, n)
-					if strings.Contains(v, "host-secret") || n == "VERIF_CANARY" {
-						problem(ts.Name(), "the host variable VERIF_CANARY is visible to the script's child process")
-					}
-					if n == "SETUPVAR" && v != ts.Name() {
-						problem(ts.Name(), fmt.Sprintf("SETUPVAR=%q belongs to another script", v))
-					}
-				}
-				sort.Strings(names)
-				r := get(ts.Name())
-				mu.Lock()
-				r.EnvNames = names
-				mu.Unlock()
-			},
-			"defer-mark": func(ts *testscript.TestScript, neg bool, args []string) {
-				var n int
-				fmt.Sscan(args[0], &n)
-				name := ts.Name()
-				ts.Defer(func() { r := get(name); mu.Lock(); r.Defers = append(r.Defers, n); mu.Unlock() })
-			},
-			"rendezvous": func(ts *testscript.TestScript, neg bool, args []string) {
-				if !spec.Parallel {
-					return
-				}
-				atomic.AddInt32(&arrived, 1)
-				deadline := time.Now().Add(20 * time.Second)
-				for atomic.LoadInt32(&arrived) < int32(spec.Arrivals) && time.Now().Before(deadline) {
-					time.Sleep(time.Millisecond)
-				}
-				if atomic.LoadInt32(&arrived) >= int32(spec.Arrivals) {
-					atomic.StoreInt32(&complete, 1)
-				}
-			},
-			"checkown": func(ts *testscript.TestScript, neg bool, args []string) {
-				name := ts.Name()
-				sp := byName[name]
-				if sp == nil {
-					problem(name, "unknown script name "+name)
-					return
-				}
-				if v := ts.Getenv("OWNER"); v != sp.Token {
-					problem(name, fmt.Sprintf("variable OWNER is %q, this script set %q", v, sp.Token))
-				}
-				work := ts.Getenv("WORK")
-				if b, err := os.ReadFile(filepath.Join(work, "owner.txt")); err != nil || strings.TrimSpace(string(b)) != sp.Token {
-					problem(name, fmt.Sprintf("owner.txt holds %q (%v), this script wrote %q", b, err, sp.Token))
-				}
-				if cwd := ts.MkAbs("."); cwd != filepath.Join(work, "sub-"+sp.Token) {
-					problem(name, fmt.Sprintf("current directory is %s, this script changed to sub-%s", cwd, sp.Token))
-				}
-				filepath.Walk(work, func(pth string, info os.FileInfo, err error) error {
-					if err != nil {
-						return nil
-					}
-					for _, o := range spec.Scripts {
-						if o.Token != sp.Token && strings.Contains(filepath.Base(pth), o.Token) {
-							problem(name, fmt.Sprintf("work directory contains %s which belongs to script %s", pth, o.Name))
-						}
-					}
-					return nil
-				})
-				if got := len(ts.BackgroundCmds()); got != sp.Jobs {
-					problem(name, fmt.Sprintf("BackgroundCmds() has %d entries, this script started %d", got, sp.Jobs))
-				}
-				for _, c := range ts.BackgroundCmds() {
-					if !strings.Contains(strings.Join(c.Args, " "), sp.Token) {
-						problem(name, fmt.Sprintf("BackgroundCmds() contains a process of another script: %v", c.Args))
-					}
-				}
-			},
-		},
-	}
-	switch spec.Retention {
-	case "testwork":
-		p.TestWork = true
-	case "workdirroot":
-		p.WorkdirRoot = spec.WorkRoot
-	}
+	spec := c.Spec
+	p := c.Params()
 	root := tsh.NewRoot(tsh.Style(spec.Style), false, spec.Parallel)
 	root.Run("batch", func(t testscript.T) { testscript.RunT(t, p) })
 	if len(root.Subs) > 0 {
 		root.Subs[0].Release()
 	}
 	root.Release()
-	var out batchResult
 	if len(root.Subs) > 0 {
 		for _, sub := range root.Subs[0].Subs {
-			r := get(sub.Name)
+			r := c.Get(sub.Name)
+			c.Lock()
 			r.Verdict = sub.Verdict()
 			r.EndMono = sub.EndMono
 			lg := sub.LogText()
@@ -236,20 +61,10 @@ func runBatch(specPath string) int {
 				lg = lg[len(lg)-1500:]
 			}
 			r.Log = lg
+			c.Unlock()
 		}
 	}
-	var names []string
-	for n := range res {
-		names = append(names, n)
-	}
-	sort.Strings(names)
-	for _, n := range names {
-		out.Scripts = append(out.Scripts, *res[n])
-	}
-	out.Escapes = tsh.PanicEscapes.List()
-	out.RendezvousComplete = int(atomic.LoadInt32(&complete))
-	jb, _ := json.Marshal(&out)
-	os.WriteFile(spec.Out, jb, 0o666)
+	c.Write(tsh.PanicEscapes.List())
 	return 0
 }
 
@@ -381,14 +196,14 @@ func expectedTree(sp scriptSpec) []string {
 var wantEnv = []string{"$", "/", ":", "GORACE", "GOTRACEBACK", "HOME", "PATH", "PWD", "SETUPVAR", "TMPDIR", "WORK", "devnull", "exe"}
 
 type ccase struct {
-	Kind   string      `json:"kind"`
-	Batch  int         `json:"batch"`
-	Mode   string      `json:"mode"`
-	Uid    int         `json:"uid"`
-	Script string      `json:"script"`
-	Detail string      `json:"detail"`
-	Spec   *batchSpec  `json:"batch_spec,omitempty"`
-	Log    string      `json:"log,omitempty"`
+	Kind   string     `json:"kind"`
+	Batch  int        `json:"batch"`
+	Mode   string     `json:"mode"`
+	Uid    int        `json:"uid"`
+	Script string     `json:"script"`
+	Detail string     `json:"detail"`
+	Spec   *batchSpec `json:"batch_spec,omitempty"`
+	Log    string     `json:"log,omitempty"`
 }
 
 func main() {
@@ -403,7 +218,7 @@ func main() {
 		return
 	}
 	vlib.Main("C04", "exploration", 12*time.Minute, func(r *vlib.Run) {
-		r.Rule("batches of 2-12 generated scripts per RunT call (explicit files incl. duplicate base names from different directories), each script: listing of $WORK first, child-process environment, own variable / file / sub-directory / background jobs (SIGINT-terminable and slow-to-die), a rendezvous at which all parallel scripts overlap, ownership re-check, read-only trees (0555/0444), three defer marks; endings pass / fail early / fail late / failing plain wait with later jobs still running / skip / stop / failing Setup; retention none / TestWork / WorkdirRoot; both T styles; every batch runs twice (parallel with subtests released after RunT returned, and one script at a time) in a process of its own as uid 65534 or root. Non-trivial/distinct = distinct (ending multiset, retention, mode, uid) batches in which the rendezvous completed.")
+		r.Rule("batches of 2-12 generated scripts per RunT call (explicit files incl. duplicate base names from different directories), each script: listing of $WORK first, child-process environment, own variable / file / sub-directory / background jobs (SIGINT-terminable and slow-to-die), a rendezvous at which all parallel scripts overlap, ownership re-check, read-only trees (0555/0444), three defer marks; endings pass / fail early / fail late / failing plain wait with later jobs still running / skip / stop / failing Setup; retention none / TestWork / WorkdirRoot; both T styles; every batch runs twice (parallel with subtests released after RunT returned, and one script at a time) with a recording T, and every second batch a third time on the real *testing.T (a test binary built from checks/c04/realt), each in a process of its own as uid 65534 or root. Non-trivial/distinct = distinct (ending multiset, retention, mode, uid) batches in which the rendezvous completed.")
 		r.Assume("grandchildren of started processes are not tracked; background helpers always die on SIGINT (possibly 150 ms late)")
 		base := vlib.Scratch()
 		os.Chmod(base, 0o777)
@@ -415,11 +230,17 @@ func main() {
 			return
 		}
 		os.Chmod(batchBin, 0o755)
+		realBin := filepath.Join(base, "c04realt.test")
+		if b, err := os.ReadFile(filepath.Join(os.Getenv("VERIF_BUILD"), "realt.test")); err != nil || os.WriteFile(realBin, b, 0o755) != nil {
+			r.Inconclusive("cannot copy the real-testing.T back-end into the scratch directory")
+			return
+		}
+		os.Chmod(realBin, 0o755)
 		rng := r.Rand("batches")
 		nb := r.Pick(40, 600)
 		racePrefix := filepath.Join(base, "race")
 		seen := map[string]int{}
-		var nScripts, nRendez int
+		var nScripts, nRendez, nRealT int
 		report := func(kind string, c ccase) {
 			seen[kind]++
 			if seen[kind] > 3 {
@@ -442,8 +263,12 @@ func main() {
 				uid = 65534
 			}
 			results := map[string]*batchResult{}
-			for _, mode := range []string{"parallel", "sequential"} {
-				spec.Parallel = mode == "parallel"
+			modes := []string{"parallel", "sequential"}
+			if bi%2 == 0 {
+				modes = append(modes, "realT") // the same batch on the real *testing.T
+			}
+			for _, mode := range modes {
+				spec.Parallel = mode != "sequential"
 				gotmp := filepath.Join(dir, "gotmp-"+mode)
 				tmp := filepath.Join(dir, "tmp-"+mode)
 				spec.WorkRoot = filepath.Join(dir, "workroot-"+mode)
@@ -463,6 +288,9 @@ func main() {
 					return nil
 				})
 				cmd := exec.Command(batchBin)
+				if mode == "realT" {
+					cmd = exec.Command(realBin, "-test.run", "^TestBatch$", "-test.v", "-test.parallel", "16", "-test.timeout", "3m")
+				}
 				cmd.Env = []string{"PATH=" + os.Getenv("PATH"), "HOME=/nonexistent", "GOTMPDIR=" + gotmp, "TMPDIR=" + tmp, "C04_BATCH=" + specPath,
 					fmt.Sprintf("GOMAXPROCS=%d", []int{1, 4, 16}[(bi+len(mode))%3]), vlib.RaceEnv(racePrefix) + " atexit_sleep_ms=0"}
 				if uid != 0 {
@@ -494,6 +322,29 @@ func main() {
 					continue
 				} else {
 					json.Unmarshal(b, &br)
+				}
+				if mode == "realT" {
+					// verdicts come from the test binary's own -test.v report
+					eb, _ := os.ReadFile(filepath.Join(dir, "stderr-"+mode))
+					verdicts := map[string]string{}
+					for _, m := range realVerdict.FindAllStringSubmatch(string(eb), -1) {
+						verdicts[m[2]] = map[string]string{"PASS": "pass", "FAIL": "fail", "SKIP": "skip"}[m[1]]
+					}
+					seenNames := map[string]bool{}
+					for i := range br.Scripts {
+						br.Scripts[i].Verdict = verdicts[br.Scripts[i].Name]
+						if br.Scripts[i].Verdict == "" {
+							br.Scripts[i].Verdict = "unfinished"
+						}
+						br.Scripts[i].Log = tailS(string(eb), 1500)
+						seenNames[br.Scripts[i].Name] = true
+					}
+					for n, v := range verdicts {
+						if !seenNames[n] {
+							br.Scripts = append(br.Scripts, scriptResult{Name: n, Verdict: v})
+						}
+					}
+					nRealT++
 				}
 				results[mode] = &br
 				mk := func(kind, script, detail, log string) {
@@ -601,7 +452,11 @@ func main() {
 				forceRemove(tmp)
 			}
 			// parallel = sequential
-			if p, s := results["parallel"], results["sequential"]; p != nil && s != nil {
+			for _, pair := range [][2]string{{"parallel", "sequential"}, {"realT", "sequential"}} {
+				p, s := results[pair[0]], results[pair[1]]
+				if p == nil || s == nil {
+					continue
+				}
 				pm := map[string]scriptResult{}
 				for _, x := range p.Scripts {
 					pm[x.Name] = x
@@ -613,8 +468,8 @@ func main() {
 					}
 					if x.Verdict != y.Verdict || fmt.Sprint(x.Tree) != fmt.Sprint(y.Tree) || fmt.Sprint(x.EnvNames) != fmt.Sprint(y.EnvNames) || fmt.Sprint(x.Defers) != fmt.Sprint(y.Defers) {
 						sc := spec
-						report("parallel-differs-from-sequential", ccase{"parallel-differs-from-sequential", bi, "both", uid, y.Name,
-							fmt.Sprintf("script %s: parallel run gave (%s, tree %v, env %v, defers %v), one-at-a-time run gave (%s, %v, %v, %v)", y.Name, x.Verdict, x.Tree, x.EnvNames, x.Defers, y.Verdict, y.Tree, y.EnvNames, y.Defers), &sc, x.Log})
+						report("parallel-differs-from-sequential", ccase{"parallel-differs-from-sequential", bi, pair[0] + "+sequential", uid, y.Name,
+							fmt.Sprintf("script %s: "+pair[0]+" run gave (%s, tree %v, env %v, defers %v), one-at-a-time run gave (%s, %v, %v, %v)", y.Name, x.Verdict, x.Tree, x.EnvNames, x.Defers, y.Verdict, y.Tree, y.EnvNames, y.Defers), &sc, x.Log})
 					}
 				}
 			}
@@ -632,6 +487,7 @@ func main() {
 		}
 		r.Set("batches", nb)
 		r.Set("script_runs", nScripts)
+		r.Set("batches_also_run_on_the_real_testing_T", nRealT)
 		r.Set("parallel_batches_with_complete_rendezvous", nRendez)
 		r.ReportRaces(racePrefix)
 		if nRendez < nb/2 {
@@ -639,6 +495,8 @@ func main() {
 		}
 	})
 }
+
+var realVerdict = regexp.MustCompile(`(?m)^\s*--- (PASS|FAIL|SKIP): TestBatch/(\S+) \(`)
 
 type batchRunner struct{ spec string }
 
